@@ -597,4 +597,52 @@ Proof.
   intros S E Hp Hf. pose proof (greader_call fuel h r S) as H. rewrite E in H. destruct H as (_ & _ & _ & G & _).
   destruct o; cbn [Good] in G; try contradiction; exact G.
 Qed.
+
+(* ---- any number of calls ---- *)
+Lemma Pumps_app s1 cs1 s2 cs2 s3 : Pumps bs s1 cs1 s2 -> Pumps bs s2 cs2 s3 -> Pumps bs s1 (cs1 ++ cs2) s3.
+Proof. induction 1 as [|s c sa cs sb Hp Hr IH]; intros H2; cbn [app]; [exact H2|]. econstructor; [exact Hp|now apply IH]. Qed.
+
+Lemma reabs h' h'' tr : Forall (chunk_ok h') tr -> FR h' h'' ->
+  map (abs_chunk h'') tr = map (abs_chunk h') tr /\ Forall (chunk_ok h'') tr.
+Proof.
+  intros F (Fa & Fb). induction F as [|c tr Hc Ht IH]; [split; constructor|].
+  destruct (chunk_frame h' h'' c Fa Fb Hc) as (C' & E'). destruct IH as (IH1 & IH2). cbn [map]. rewrite E', IH1. split; [reflexivity|constructor; auto].
+Qed.
+
+(* the bytes of the chunks pumped are exactly the bytes the chunker has consumed from its stream *)
+Lemma Pumps_bytes s cs s' : Pumps bs s cs s' ->
+  Chunker.remaining s = concat (map bytes_of cs) ++ Chunker.remaining s'.
+Proof.
+  induction 1 as [|s c s1 cs s2 Hp Hr IH]; [reflexivity|].
+  destruct (pump_spec bs s c s1 Hp) as (E & _). cbn [map concat]. rewrite E, IH, app_assoc. reflexivity.
+Qed.
+
+(* n successive calls: the outcomes, the final memory and reader, and all chunks pumped *)
+Fixpoint gcalls (n fuel : nat) (h : heap) (r : grd) : list goutcome * heap * grd * list gchunk :=
+  match n with
+  | O => ([], h, r, [])
+  | S n =>
+    let '(o, h1, r1, tr1) := gnext_record mi ms max limit bs fuel h r in
+    let '(os, hF, rF, trs) := gcalls n fuel h1 r1 in
+    (o :: os, hF, rF, tr1 ++ trs)
+  end.
+
+Theorem greader_calls : forall n fuel h r os hF rF trs, RState h r ->
+  gcalls n fuel h r = (os, hF, rF, trs) ->
+  Forall (fun o => o <> GPanic /\ o <> GFuel) os ->
+  RState hF rF /\ FR h hF /\ Forall (chunk_ok hF) trs /\
+  Pumps bs (abs_st h (rchunker r)) (map (abs_chunk hF) trs) (abs_st hF (rchunker rF)).
+Proof.
+  induction n as [|n IH]; intros fuel h r os hF rF trs S E Hok; cbn [gcalls] in E.
+  - inversion E; subst. sp; auto using FR_refl; constructor.
+  - destruct (gnext_record mi ms max limit bs fuel h r) as [[[o h1] r1] tr1] eqn:E1.
+    destruct (gcalls n fuel h1 r1) as [[[os' hF'] rF'] trs'] eqn:E2. inversion E; subst os hF' rF' trs. clear E.
+    inversion Hok as [|? ? (Hp & Hf) Hrest]; subst.
+    pose proof (greader_call fuel h r S) as HC. rewrite E1 in HC. destruct HC as (F1 & B1 & P1 & _ & _).
+    pose proof (greader_next_state fuel h r o h1 r1 tr1 S E1 Hp Hf) as S1.
+    destruct (IH fuel h1 r1 os' hF rF trs' S1 E2 Hrest) as (SF & F2 & B2 & P2).
+    destruct (reabs h1 hF tr1 B1 F2) as (Eabs & B1').
+    sp; [exact SF|exact (FR_trans _ _ _ F1 F2)|apply Forall_app; auto|].
+    rewrite map_app, Eabs. eapply Pumps_app; [exact P1|exact P2].
+Qed.
 End Reader.
